@@ -116,13 +116,14 @@ package dns
 
 //@ func CompareDomainName [C19]
 //@   opt opaque = labeq lbeg sep nsep escd lower
-//@   apply at "if equal(s1[l1[j1]:], s2[l2[j2]:])" labeq_shift(s1, l1[j1], len(s1), s2, l2[j2], len(s2))
+//@   apply at "if equal(s1[l1[j1]:e1], s2[l2[j2]:e2])" labeq_shift(s1, l1[j1], e1, s2, l2[j2], e2)
 //@   apply at "if equal(s1[l1[i1]:l1[j1]], s2[l2[i2]:l2[j2]])" labeq_shift(s1, l1[i1], l1[j1], s2, l2[i2], l2[j2])
 //@   apply at "if equal(s1[l1[i1]:l1[j1]], s2[l2[i2]:l2[j2]])" labeq_dot(s1, l1[i1], l1[j1] - 1, s2, l2[i2], l2[j2] - 1)
 //@   apply at "if equal(s1[l1[i1]:l1[j1]], s2[l2[i2]:l2[j2]])" sep_dot(s1, l1[j1] - 1)
 //@   apply at "if equal(s1[l1[i1]:l1[j1]], s2[l2[i2]:l2[j2]])" sep_dot(s2, l2[j2] - 1)
-//@   apply at "if equal(s1[l1[j1]:], s2[l2[j2]:])" lbeg_skip(s1, l1[j1], len(s1))
-//@   apply at "if equal(s1[l1[j1]:], s2[l2[j2]:])" lbeg_skip(s2, l2[j2], len(s2))
+//@   apply at "if equal(s1[l1[j1]:e1], s2[l2[j2]:e2])" lbeg_skip(s1, l1[j1], e1)
+//@   apply at "if equal(s1[l1[j1]:e1], s2[l2[j2]:e2])" lbeg_skip(s2, l2[j2], e2)
+//@   assert at "if equal(s1[l1[j1]:e1], s2[l2[j2]:e2])" ends: e1 == wend(s1) && e2 == wend(s2) && l1[j1] <= e1 && l2[j2] <= e2
 //@   apply at "if equal(s1[l1[i1]:l1[j1]], s2[l2[i2]:l2[j2]])" lbeg_skip(s1, l1[i1], l1[j1] - 1)
 //@   apply at "if equal(s1[l1[i1]:l1[j1]], s2[l2[i2]:l2[j2]])" lbeg_skip(s2, l2[i2], l2[j2] - 1)
 //@   ensures root: (isdot(s1) || isdot(s2)) ==> n == 0
@@ -130,7 +131,7 @@ package dns
 //@   ensures bound: len(s1) > 0 && len(s2) > 0 && !isdot(s1) && !isdot(s2) ==> 0 <= n && n <= nsep(s1, len(s1)-1) + 1 && n <= nsep(s2, len(s2)-1) + 1
 //@   loop 1 invariant i1 == j1 - 1 && i2 == j2 - 1 && 0 <= j1 && j1 < len(l1) && 0 <= j2 && j2 < len(l2)
 //@   loop 1 invariant n == len(l1) - j1 && n == len(l2) - j2
-//@   loop 1 invariant rest: len(s1) > 0 && len(s2) > 0 ==> csuf(s1, len(s1), s2, len(s2)) == n + ((i1 < 0 || i2 < 0) ? 0 : csuf(s1, l1[j1] - 1, s2, l2[j2] - 1))
+//@   loop 1 invariant rest: len(s1) > 0 && len(s2) > 0 ==> csuf(s1, wend(s1), s2, wend(s2)) == n + ((i1 < 0 || i2 < 0) ? 0 : csuf(s1, l1[j1] - 1, s2, l2[j2] - 1))
 //@   loop 1 decreases j1
 
 //@ func IsSubDomain [C19 C17]
